@@ -18,7 +18,7 @@ from vlib import cal, kit
 from vlib.runner import CaseFailed, Result, Violation, sut_frames
 from vlib.sut import load
 
-ASSETS = ['EQ:A', 'EQ:AB', 'EQ:B', 'EQ:C', 'EQ:Z9']
+ASSETS = ['EQ:A', 'EQ:AB', 'EQ:Brk.b', 'EQ:C', 'EQ:Z9']
 TODS = [(0, 0, 0), (14, 29, 59), (14, 30, 0), (14, 30, 1), (17, 0, 0), (20, 59, 59), (21, 0, 0), (21, 0, 1), (23, 59, 0)]
 OPEN_TODS = [(14, 30, 0), (14, 30, 1), (15, 45, 10), (17, 0, 0), (20, 59, 59)]
 SMALL_AMOUNTS = [0.0, 0.01, 0.5, 1.0, 1.5]
@@ -188,7 +188,7 @@ class Harness(object):
             self.flags.add('withdraw_exact_balance')
 
     def op_create(self, op, before):
-        pid = op[1] if len(op) > 1 else 'p%d' % len(self.cash)
+        pid = op[1] if len(op) > 1 else ['p7', 'p2', 'p9', 'p1'][len(self.cash) % 4] + ('x' * (len(self.cash) // 4))
         if len(self.cash) >= 4 or pid in self.cash:
             return
         self.valid_ops += 1
